@@ -14,7 +14,11 @@ pkg=$(echo "$cmd" | grep -oE '\./[a-z0-9/]+/?' | head -1 | sed 's|^\./||; s|/$||
 res() { echo "$ID-$M: $1"; }
 place() { case "$cmd" in *"cp "*) return;; esac; if [ "$demo" = demo ]; then mkdir -p $WT/_demo_$M && cp -r $S/demo/* $WT/_demo_$M/; else cp $S/$demo $WT/$pkg/zz_seeded_demo_test.go; fi; }
 unplace() { rm -rf $WT/_demo_$M; git -C $WT clean -fdq -e _seeded; }
-run_demo() { (cd $WT && eval "timeout 900 $(echo "$cmd" | sed "s|cd [^ ]* *&& *||")" ) > $WT/_seeded/$M.demo.$1.log 2>&1; }
+run_demo() { (cd $WT && eval "$(echo "$cmd" | sed "s|cd [^ ]* *&& *||")" ) > $WT/_seeded/$M.demo.$1.log 2>&1; rc=$?
+  # some demo commands end with a cleanup step, so the verdict is read from the go test output
+  if grep -qE '^(FAIL|--- FAIL|panic:|fatal error:)' $WT/_seeded/$M.demo.$1.log; then return 1; fi
+  if grep -qE '^ok[[:space:]]' $WT/_seeded/$M.demo.$1.log; then return 0; fi
+  return $rc; }
 # 1. clean tree: demo passes
 place; run_demo clean; rc_clean=$?; unplace
 # 2. with patch: builds, demo fails, suite passes
